@@ -90,6 +90,19 @@ class Engine:
             # processes that have used ANOTHER cache database before (their per-process memo is not empty)
             "warm_other": rng.randrange(1 << n_proc) if rng.random() < 0.4 else 0,
         }
+        if config in ("base", "fine") and rng.random() < 0.15:
+            # motif: a process that is already initialised gets hits (one of them refreshing last_hit) while the first call of
+            # another process prunes with expiration 0 and inserts another text - rows vanish and row numbers are reused
+            # between the statements of the hit
+            plan["init"] = rng.choice(["absent", "absent", "fresh", "stale"])
+            t = rng.choice([0, 1])
+            plan["actors"] = [
+                {"proc": 0, "calls": [{"text": t, "exp_days": 30, "always_update": rng.random() < 0.5},
+                                      {"text": t, "exp_days": 30, "always_update": rng.random() < 0.5}]},
+                {"proc": 1, "calls": [{"text": rng.choice([1 - t, 3]), "exp_days": 0, "always_update": False}]},
+            ] + ([{"proc": 0, "calls": [{"text": t, "exp_days": 30, "always_update": True}]}] if rng.random() < 0.5 else [])
+            plan["labels"] = [0, 0]
+            plan["warm_other"] = 0
         if config == "stall":
             for _ in range(rng.choice([1, 1, 2])):
                 plan["stalls"].append({"actor": rng.randrange(n_act), "at_step": rng.randint(1, 40),
